@@ -1,10 +1,11 @@
 // UNIT: id=C14 cxxflags="-DGALOIS_FORCE_STANDALONE"
 // ASSUME: GALOIS_FORCE_STANDALONE (the repository's own switch) routes FixedSizeAllocator to malloc; the Galois heaps are C09's subject
 // ASSUME: operation KINDS are enumerated as separate solver queries (vf_param); element values and one insertion position per sequence are solver variables
-// OB: ob_gdeque_tail tier=quick unwind=9 timeout=300 params=11,11 bounds="gdeque<int,2>: 3 push_back (2 blocks) then every pair of ops from 11 kinds {push/pop front/back, emplace@0..3, emplace@symbolic, clear, move}; values symbolic; fwd+reverse traversal, size, front/back after every op" desc="gdeque equals a sequence model (multi-block prefix)"
+// OB: ob_gdeque_tail_sym tier=thorough unwind=9 timeout=900 params=11,11 bounds="as ob_gdeque_tail with all 11 kinds incl. emplace at a symbolic position" desc="gdeque equals a sequence model (symbolic insertion position)"
+// OB: ob_gdeque_tail quick_limit=50 tier=quick unwind=9 timeout=300 params=10,10 bounds="gdeque<int,2>: 3 push_back (2 blocks) then every pair of ops from 10 kinds {push/pop front/back, emplace@0..3, clear, move}; values symbolic; fwd+reverse traversal, size, front/back after every op" desc="gdeque equals a sequence model (multi-block prefix)"
 // OB: ob_gdeque_seq3 tier=thorough unwind=8 timeout=600 params=11,11,11 bounds="gdeque<int,2>: all 1331 kind-sequences of 3 ops from the empty deque" desc="gdeque equals a sequence model (from empty)"
 // OB: ob_gdeque_tail3 tier=thorough unwind=10 timeout=900 params=11,11,11 param_limit=400 bounds="3 push_back then 3 ops (400 of 1331 kind-sequences, VERIF_SEED)" desc="gdeque equals a sequence model (deeper)"
-// OB: ob_gdeque_counted tier=quick unwind=9 timeout=300 params=10,10 bounds="gdeque<Counted,2>: 3 emplace_back then every pair of ops from 10 kinds; ghost live-instance map" desc="each element constructed and destroyed exactly once"
+// OB: ob_gdeque_counted quick_limit=30 tier=quick unwind=9 timeout=300 params=9,9 bounds="gdeque<Counted,2>: 3 emplace_back then every pair of ops from 9 kinds (push/pop front/back, emplace@0..3, clear); ghost live-instance map" desc="each element constructed and destroyed exactly once"
 #include "vf.h"
 #include "galois/gdeque.h"
 #include "vf_standalone.h"
@@ -36,7 +37,10 @@ void check_equal(D& d, const int* model, unsigned n) {
   }
 }
 
-template <unsigned NOPS, unsigned PRE>
+// quick tier: the 10 kinds with concrete emplace positions; kind 8 (emplace at a SYMBOLIC position) costs minutes per
+// query and runs in the thorough tier
+const unsigned KIND10[10] = {0, 1, 2, 3, 4, 5, 6, 7, 9, 10};
+template <unsigned NOPS, unsigned PRE, bool ALLKINDS>
 void run_ops() {
   galois::gdeque<int, 2> d;
   int model[CAP];
@@ -48,7 +52,7 @@ void run_ops() {
     model[n++] = v;
   }
   for (unsigned i = 0; i < NOPS; ++i) {
-    unsigned op = vf_param(i);
+    unsigned op = ALLKINDS ? vf_param(i) : KIND10[vf_param(i)];
     int v = (int)vf_nondet_u32();
     switch (op) {
     case 0: // push_back
@@ -129,9 +133,10 @@ int Counted::ctor = 0;
 int Counted::dtor = 0;
 } // namespace
 
-OB(gdeque_seq3) { run_ops<3, 0>(); }
-OB(gdeque_tail) { run_ops<2, 3>(); }
-OB(gdeque_tail3) { run_ops<3, 3>(); }
+OB(gdeque_seq3) { run_ops<3, 0, true>(); }
+OB(gdeque_tail) { run_ops<2, 3, false>(); }
+OB(gdeque_tail_sym) { run_ops<2, 3, true>(); }
+OB(gdeque_tail3) { run_ops<3, 3, true>(); }
 
 OB(gdeque_counted) {
   {
@@ -140,7 +145,7 @@ OB(gdeque_counted) {
     bool symUsed = false;
     for (unsigned i = 0; i < 3; ++i) { d.emplace_back((int)i); ++n; }
     for (unsigned i = 0; i < 2; ++i) {
-      unsigned op = vf_param(i);
+      unsigned op = vf_param(i) < 8 ? vf_param(i) : 9; // kinds 0..7 and clear; the symbolic-position emplace is in ob_gdeque_tail_sym
       int v = (int)vf_nondet_u8();
       switch (op) {
       case 0: d.emplace_back(v); ++n; break;
